@@ -7,16 +7,20 @@
      "scan <lo> <hi> <prefix-hex|-> <suffix-hex|->"     prefix ++ [c] ++ suffix for every Unicode scalar
                                                         value lo <= c < hi (decimal; surrogates skipped)
    stdout: one line per string
-     "<hex> P:<v> I:<v> E:<v> B:<v> M:<v> O:<v> W:<6 letters> Y:<letter> T:<4 letters>[ WD:<pos>=<8 letters>,..]"
+     "<hex> P:<v> I:<v> E:<v> B:<v> M:<v> O:<v> W:<6 letters> Y:<6 letters> T:<6 letters> R:<2 letters> H:<6 letters>[ WD:<pos>=<8 letters>,..][ HD:<pos>=<8 letters>,..]"
    v = ok|err|panic (validate_object_path, _interface, _errorname, _busname, _membername, ObjectPath::new;
    O:bad = Ok with a different string); W = header marshalling with the string as path, interface,
    member, error name, destination, sender (o = Ok and exactly the given names written, e = Err,
    x = Ok but other names, p = anything else; each letter summarises 8 configurations = message type Call/Signal/
    Reply/Error x (only the fields the type requires + the one under test | all six); m = they differ, then WD lists
-   the 8 letters); Y = the string as an object path in a message body (params::Base::ObjectPath);
-   T = ObjectPath::<String>::new, TryFrom<&str>, TryFrom<String>, new(&str)+to_owned, each followed by the typed
+   the 8 letters); Y = the string as an object path pushed into a message body with the Param API: Base::ObjectPath,
+   Base::ObjectPathRef, inside an array, a variant, as a dict key, inside a struct;
+   T = ObjectPath::<String>::new, TryFrom<&str>, TryFrom<String>, new(&str)+to_owned, and decoding the wrapper from
+   body bytes as ObjectPath<&str> and ObjectPath<String> (impl Unmarshal), each followed by the typed
    Marshal impl of the wrapper (e = constructor Err, o = Ok/same string/marshalled as that string, n = Ok but
-   marshal refuses, x = other).
+   marshal refuses, x = other). R = body bytes holding the string with signature "o" decoded with get_param and
+   checked with MarshalledMessageBody::validate; H = a hand-encoded header carrying the string in each name
+   position decoded with unmarshal_header + unmarshal_dynamic_header (same 8 configurations, HD like WD).
    enum/scan print only lines where something is not err/e, then "total <n> nontrivial <k>". *)
 open Gen_model
 
@@ -69,7 +73,8 @@ let wire1 k s typ full =
   let v j = if present j then Some (if j = k then s else default_of j) else None in
   let h = { dh_object = v 0; dh_interface = v 1; dh_member = v 2; dh_error_name = v 3;
             dh_destination = v 4; dh_sender = v 5 } in
-  match marshal_header_names h [] with
+  let (mt, rs) = match typ with 0 -> (MCall, false) | 1 -> (MSignal, false) | 2 -> (MReply, true) | _ -> (MError, true) in
+  match marshal_header_msg mt rs h with
   | Ok w -> if canon w = canon (names_of h) then 'o' else 'x'
   | Err -> 'e'
   | _ -> 'p'
@@ -106,16 +111,28 @@ let eval (cps : int list) : bool * bool * string =
   let ws = List.init 6 (fun k -> wire k s) in
   let w = String.init 6 (fun k -> fst (List.nth ws k)) in
   let wd = List.filter_map snd ws in
-  let t = String.init 4 (fun k -> match k with
+  let decode x = objectpath_unmarshal (Ok x) in
+  let t = String.init 6 (fun k -> match k with
     | 0 -> ctor_letter objectpath_new false s
     | 1 -> ctor_letter objectpath_try_from_str false s
     | 2 -> ctor_letter objectpath_try_from_string false s
-    | _ -> ctor_letter objectpath_new true s) in
-  let y = match marshal_objectpath s with Ok r -> if r = s then 'o' else 'x' | Err -> 'e' | _ -> 'p' in
-  let interesting = List.exists (fun v -> v <> "err") [p; i; e; b; m; o] || w <> "eeeeee" || y <> 'e' || t <> "eeee" in
+    | 3 -> ctor_letter objectpath_new true s
+    | _ -> ctor_letter decode false s) in
+  (* every Param route of an object path into a body is marshal_base_param -> marshal_objectpath *)
+  let y1 = match marshal_objectpath s with Ok r -> if r = s then 'o' else 'x' | Err -> 'e' | _ -> 'p' in
+  let y = String.make 6 y1 in
+  let r = String.init 2 (fun k -> match k with
+    | 0 -> (match unmarshal_param_objectpath (Ok s) with Ok x -> if x = s then 'o' else 'x' | Err -> 'e' | _ -> 'p')
+    | _ -> (match validate_raw_objectpath (Ok s) with Ok _ -> 'o' | Err -> 'e' | _ -> 'p')) in
+  let codes = [| 1; 2; 3; 4; 6; 7 |] in
+  let hl = String.init 6 (fun k -> match name_field_decoder (n_of_int codes.(k)) with
+    | Some f -> (match f (Ok s) with Ok x -> if x = s then 'o' else 'x' | Err -> 'e' | _ -> 'p')
+    | None -> '?') in
+  let interesting = List.exists (fun v -> v <> "err") [p; i; e; b; m; o] || w <> "eeeeee" || y <> "eeeeee" || t <> "eeeeee"
+                    || r <> "ee" || hl <> "eeeeee" in
   let nontrivial = interesting || (List.exists is_sep cps && List.exists is_name_char cps) in
   (interesting, nontrivial,
-   Printf.sprintf "%s P:%s I:%s E:%s B:%s M:%s O:%s W:%s Y:%c T:%s%s" (hex_of_ints bytes) p i e b m o w y t
+   Printf.sprintf "%s P:%s I:%s E:%s B:%s M:%s O:%s W:%s Y:%s T:%s R:%s H:%s%s" (hex_of_ints bytes) p i e b m o w y t r hl
      (if wd = [] then "" else " WD:" ^ String.concat "," wd))
 
 let () =
